@@ -250,6 +250,50 @@ def c13e(ctx):
     ctx.alias = {}
 
 
+STD_FIELDS = {"core::ops::range::Range": ["start", "end"], "core::ops::range::RangeFrom": ["start"], "core::ops::range::RangeTo": ["end"],
+              "core::ops::range::RangeToInclusive": ["end"], "core::num::wrapping::Wrapping": ["0"], "core::num::saturating::Saturating": ["0"],
+              "core::cmp::Reverse": ["0"]}
+
+
+def c13e_all_fields(ctx, prog, impls):
+    """Hand-written impls that hash a value field by field must hash ALL its fields: a dropped field makes values that
+    differ only there collide with certainty (Range { start, end } hashing only `end`).  Decided for struct-like self types
+    whose field list is known (workspace structs, std's public-field structs, tuples); impls that delegate (deref, accessor
+    methods, iteration) are out of scope here."""
+    o = ctx.ob("C13.e", "hand-written/every-field-hashed", "K8", "a StableHash impl that feeds fields of `self` directly feeds every field of the type")
+    n = 0
+    for im, b in impls:
+        adt = im.get("self_adt") or ""
+        sty = im["self_ty"]
+        want = None
+        if adt in STD_FIELDS:
+            want = STD_FIELDS[adt]
+        elif adt in prog.adts and prog.adts[adt]["adt_kind"] == "Struct":
+            want = [f["name"] for f in prog.adts[adt]["variants"][0]["fields"] if "PhantomData" not in f["ty"]]
+        elif sty.startswith("(") and sty.endswith(")") and "," in sty:
+            want = [str(i) for i in range(len([x for x in sty[1:-1].split(",") if x.strip()]))]
+        if want is None:
+            continue
+        got = []
+        for s_ in b.calls_to(r"StableHash::stable_hash$|StableHasher::write_[a-z0-9]+$"):
+            arg = s_.node["args"][0] if s_.node["fn"]["path"].endswith("stable_hash") else s_.node["args"][1]
+            ap = df.access_path(b, arg)
+            if ap and ap[0] == "<param _1>":
+                fl = [x for x in ap[1:] if not x.startswith("<")]
+                if fl:
+                    got.append(fl[0])
+        if not got:
+            continue    # delegating impl
+        n += 1
+        ctx.touch(b)
+        if sorted(set(got)) != sorted(want):
+            ctx.fail(o, Site(b, 0, 0), "StableHash for `%s` feeds the fields %s of the value, the type has %s: values that differ in the others hash alike" % (
+                short(sty), sorted(set(got)), sorted(want)))
+    o.sites = n
+    if n < 8:
+        ctx.fail(o, "(program)", "expected >= 8 field-wise StableHash impls with a known field list, found %d" % n)
+
+
 def is_unordered(im):
     adt = im.get("self_adt") or ""
     if adt in UNORDERED:
@@ -474,3 +518,4 @@ def run(ctx):
     ctx.run_clause("C13.d", lambda c: c13d(c, prog))
     ctx.run_clause("C13.d", lambda c: c13d_casts(c, prog, impls))
     ctx.run_clause("C13.e", c13e)
+    ctx.run_clause("C13.e", lambda c: c13e_all_fields(c, prog, impls))
